@@ -92,7 +92,7 @@ def main():
         finally:
             subprocess.run(["git", "-C", "/repo", "worktree", "remove", "--force", wt])
     old = json.load(open(os.path.join(out, "index.json"))) if os.path.exists(os.path.join(out, "index.json")) else []
-    index += [e for e in old if e["name"].startswith("a_")]
+    index += [e for e in old if e["name"].startswith(("a_", "a2_"))]
     json.dump(index, open(os.path.join(out, "index.json"), "w"), indent=1)
     print(len(index), "benign refactorings written")
 
